@@ -72,8 +72,9 @@ def run(cases_path, scratch):
         fh.write(gen(cases))
     shutil.copy(os.path.join(vf.HARNESS_SRC, "names", "runner.go.txt"), os.path.join(d, "main.go"))
     with open(os.path.join(d, "go.mod"), "w") as fh:
-        fh.write(open(os.path.join(vf.HARNESS_SRC, "go.mod")).read().replace("module verif/harness", "module verif/names"))
-    shutil.copy("/repo/go.sum", os.path.join(d, "go.sum"))
+        fh.write(open(os.path.join(vf.HARNESS_SRC, "go.mod")).read().replace("module verif/harness", "module verif/names")
+                 .replace("=> /repo", "=> " + vf.REPO))
+    shutil.copy(os.path.join(vf.REPO, "go.sum"), os.path.join(d, "go.sum"))
     p = subprocess.run(["go", "build", "-tags", "verif", "-o", "names", "."], cwd=d, env=vf.goenv(), capture_output=True, text=True)
     if p.returncode != 0:
         raise vf.Infra("generated environment types do not build:\n" + (p.stdout + p.stderr)[-3000:])
